@@ -63,6 +63,7 @@ namespace BitSerializer::Csv::Detail
 
 	private:
 		bool ParseNextLine(std::vector<CValueMeta>& out_values);
+		Convert::Utf::EncodedStreamReadResult ReadNextChunk();
 		std::string_view UnescapeValue(char* beginIt, const char* endIt);
 
 		Convert::Utf::CEncodedStreamReader<char> mEncodedStreamReader;
